@@ -74,19 +74,33 @@ def eval_dyad_amend(a, b, backend):
             r[i] = b[0]
         r = backend.kg_asarray(r)
     else:
+        r = _widen_for(r, b[0])
         numpy.put(r, numpy.asarray(b[1:],dtype=int), b[0])
+    return r
+
+
+def _widen_for(r, v):
+    """Return array r with a dtype that can hold the new element v (an integer list amended with a
+    real becomes a real list, with a string/character/symbol a mixed list) instead of truncating."""
+    if r.dtype != object:
+        kind = numpy.asarray(v).dtype.kind
+        if kind not in 'iufb':
+            return r.astype(object)
+        if kind == 'f' and r.dtype.kind in 'iu':
+            return r.astype(float)
     return r
 
 
 def _e_dyad_amend_in_depth(p, q, v):
     if bknp.isarray(q) and len(q) > 1:
-        r = _e_dyad_amend_in_depth(p[q[0]], q[1:] if len(q) > 2 else q[1], v)
+        i = int(q[0])  # the index list shares an array with the new value and may have been promoted to real
+        r = _e_dyad_amend_in_depth(p[i], q[1:] if len(q) > 2 else q[1], v)
         p = bknp.array(p, dtype=r.dtype)
-        p[q[0]] = r
+        p[i] = r
         return p
     else:
-        p = bknp.array(p, dtype=object) if isinstance(v, (str, KGSym)) else bknp.array(p)
-        p[q] = v
+        p = bknp.array(p, dtype=object) if isinstance(v, (str, KGSym)) else _widen_for(bknp.array(p), v)
+        p[numpy.asarray(q).astype(int)] = v
         return p
 
 def eval_dyad_amend_in_depth(a, b):
